@@ -844,24 +844,25 @@ def run(ctx):
                 'with arrays) x 8 routes; bit packing for widths around multiples of 32; ndarray (de)serialisation for 8 dtypes and 8 shapes; '
                 'labels; COO (triples, and at text level: written text character for character, loader on written and hand-mutated lines).  A case = one object through one route; non-trivial = the object is not empty')
     lines, expect, meta = [], [], []
-    for _ in range(ctx.scale(600, 8000)):
+    # r8f: quick-tier volumes trimmed by a quarter (79 s wall on the merged tree); every generator still runs, the volume lives in the thorough tier
+    for _ in range(ctx.scale(450, 8000)):
         check_bqm(ctx, r, lines, expect, meta)
-    for _ in range(ctx.scale(600, 8000)):
+    for _ in range(ctx.scale(450, 8000)):
         check_ss(ctx, r, lines, expect, meta)
-    for _ in range(ctx.scale(800, 8000)):
+    for _ in range(ctx.scale(600, 8000)):
         check_pack(ctx, r, lines, expect, meta)
-    for _ in range(ctx.scale(800, 8000)):
+    for _ in range(ctx.scale(600, 8000)):
         check_ndarray(ctx, r, lines, expect, meta)
-    for _ in range(ctx.scale(800, 8000)):
+    for _ in range(ctx.scale(600, 8000)):
         check_labels(ctx, r, lines, expect, meta)
-    for _ in range(ctx.scale(500, 8000)):
+    for _ in range(ctx.scale(400, 8000)):
         check_info(ctx, r, lines, expect, meta)
-    for _ in range(ctx.scale(800, 8000)):
+    for _ in range(ctx.scale(600, 8000)):
         check_coo(ctx, r, lines, expect, meta)
-    for _ in range(ctx.scale(1200, 12000)):
+    for _ in range(ctx.scale(900, 12000)):
         check_graph(ctx, r)
     tlines, texpect, tmeta = [], [], []
-    for _ in range(ctx.scale(800, 8000)):
+    for _ in range(ctx.scale(600, 8000)):
         check_coo_text(ctx, r, tlines, texpect, tmeta)
     try:
         got = run_driver('packdriver', lines)
